@@ -594,3 +594,87 @@ func init() {
 		},
 	})
 }
+
+// generic-typed: where the stream announces an element type (basic start
+// event with a base type, or an extended typed event), the empty-interface
+// target must hold the corresponding typed slice / map.
+var baseTypeGo = map[structform.BaseType]reflect.Type{
+	structform.AnyType: gen.TIface, structform.ZeroType: gen.TIface,
+	structform.ByteType: reflect.TypeOf(uint8(0)), structform.Uint8Type: reflect.TypeOf(uint8(0)),
+	structform.StringType: gen.TString, structform.BoolType: reflect.TypeOf(false),
+	structform.IntType: reflect.TypeOf(int(0)), structform.Int8Type: reflect.TypeOf(int8(0)), structform.Int16Type: reflect.TypeOf(int16(0)),
+	structform.Int32Type: reflect.TypeOf(int32(0)), structform.Int64Type: reflect.TypeOf(int64(0)),
+	structform.UintType: reflect.TypeOf(uint(0)), structform.Uint16Type: reflect.TypeOf(uint16(0)), structform.Uint32Type: reflect.TypeOf(uint32(0)),
+	structform.Uint64Type: reflect.TypeOf(uint64(0)), structform.Float32Type: reflect.TypeOf(float32(0)), structform.Float64Type: reflect.TypeOf(float64(0)),
+}
+
+func c13GenericTyped(c *run.C) {
+	r := c.R
+	kinds := append(append([]val.Kind{}, gen.ExtArrayKinds...), gen.ExtObjectKinds...)
+	k := kinds[c.Idx%len(kinds)]
+	ev := gen.ExtEvent(r, k, []int{0, 1, -1}[(c.Idx/len(kinds))%3], true, true)
+	bt := val.BaseTypeOf(k)
+	// the same content as extended event or as its announced basic expansion
+	s := val.Stream{ev}
+	how := "extended"
+	if (c.Idx/(3*len(kinds)))%2 == 1 {
+		s = s.Expand(false)
+		how = "announced-basic"
+		if r.Bool() {
+			s[0].N = -1 // announced element type, unknown length
+		}
+	}
+	nested := (c.Idx/(6*len(kinds)))%2 == 1
+	if nested {
+		s = append(append(val.Stream{{K: val.EObjStart, N: -1}, {K: val.EKeyRef, S: "x"}}, s...), val.Event{K: val.EObjEnd})
+	}
+	c.Begin(map[string]interface{}{"how": how, "nested": nested, "stream": s})
+	var target interface{}
+	u, err := gotype.NewUnfolder(&target)
+	if err != nil {
+		return
+	}
+	var uerr error
+	if !c.Guard("unfold.generic-typed", func() { uerr = mon.Replay(s, u, mon.ReplayOpts{ScribbleRefs: true}) }) {
+		return
+	}
+	if uerr != nil {
+		c.Violationf("unfold-error", "generic-typed:error", "unfolding %s into interface{} failed: %v", s, uerr)
+		return
+	}
+	got := target
+	if nested {
+		m, ok := target.(map[string]interface{})
+		if !ok {
+			c.Violationf("mismatch", "generic-typed:outer", "enclosing object became %T", target)
+			return
+		}
+		got = m["x"]
+	}
+	et := baseTypeGo[bt]
+	var want reflect.Type
+	if k.IsExtArray() {
+		want = reflect.SliceOf(et)
+	} else {
+		want = reflect.MapOf(gen.TString, et)
+	}
+	if got == nil || reflect.TypeOf(got) != want {
+		c.Violationf("mismatch", "generic-typed:type:"+how, "stream announcing element type %s (%s) unfolded into %T, expected %s\nstream=%s", bt, how, got, want, s)
+		return
+	}
+	gv, merr := model.Fold(reflect.ValueOf(got), nil)
+	if merr != nil {
+		return
+	}
+	if d := val.Equal(ev.ExtValue(), gv, val.NumExact); d != "" {
+		c.Violationf("mismatch", "generic-typed:value", "typed container holds another value: %s\nstream=%s", d, s)
+		return
+	}
+	c.Observe("generic_typed_containers", 1)
+	c.Nontrivial(gen.Mix(132, uint64(c.Idx), gen.HashString(s.String())))
+}
+
+func init() {
+	chk := run.Lookup("C13")
+	chk.Suites = append(chk.Suites, &run.Suite{Name: "generic-typed", N: tierN(29*3*2*2*20, 29*3*2*2*400), Case: c13GenericTyped, Require: []string{"generic_typed_containers"}})
+}
